@@ -56,6 +56,11 @@ func (s *scanner) Scan(value bytes.Bytes) (*Number, error) {
 		return nil, err
 	}
 
+	if n.nat.Len() == 0 {
+		// Zero has no sign: "-0" and "0" are the same number.
+		n.neg = false
+	}
+
 	return &n, nil
 }
 
